@@ -122,6 +122,17 @@ func (m *Model) MustPrecede(spec GuardSpec) *GuardResult {
 			Equal: func(a, b bool) bool { return a == b },
 			Node:  func(s bool, _ *cfg.Block, n ast.Node) bool { return transfer(s, n, false) },
 			Edge: func(s bool, b *cfg.Block, succ int) (bool, bool) {
+				// under the bindings of a call (WithCall) a condition may be decided: `if unique {` with unique bound
+				// to the caller's `true` has no false edge
+				if len(m.binds) > 0 {
+					if c := BlockCond(b); c != nil {
+						for _, a := range Assume(c, succ == 0) {
+							if v, ok := m.ConstBool(a.Expr); ok && v != a.Truth {
+								return s, false
+							}
+						}
+					}
+				}
 				if s || spec.GuardAtom == nil {
 					return s, true
 				}
